@@ -368,3 +368,16 @@ func VerifC06_ArbitraryByteKeyValues() {
 	}
 	sym.Reach("two-pipelines")
 }
+
+// VerifC12_ConnectionsDoNotShareScratch: the concurrent-connections run read as
+// record isolation: per-connection scratch state (key-set extractor buffers,
+// local caches) is not shared between the sinks of two connections.
+//
+//verif:native off
+//verif:preempt 1
+//verif:preemptcalls github.com/relex/slog-agent/
+//verif:delays 1
+//verif:thorough delays 2
+//verif:reach done
+//verif:paths 200000
+func VerifC12_ConnectionsDoNotShareScratch() { VerifC06_ConcurrentConnections() }
